@@ -380,3 +380,92 @@ def memo_fn(cx, fname, adt, cache_field, rule='MEMO'):
         cx.ob(rule, f'{fname}:state-immutable', not badf,
               f'{short}: the state of self read by the verdict ({", ".join(selff)}) is never written after construction',
               where=s, found=', '.join(badf) if badf else None)
+
+
+# ------------------------------------------------------------------------------------------------ PARAMUSE
+
+def _ops_of_rvalue(rv):
+    out = []
+    for k in ('a', 'b'):
+        if k in rv and isinstance(rv[k], dict):
+            out.append(rv[k])
+    if 'pl' in rv:
+        out.append({'k': 'copy', 'pl': rv['pl']})
+    out.extend(rv.get('ops', ()))
+    return out
+
+
+def _locals_of_op(o):
+    if o.get('k') in ('copy', 'move'):
+        yield o['pl']['l']
+        for e in o['pl']['p']:
+            if isinstance(e, dict) and 'idx' in e:
+                yield e['idx']
+
+
+def param_influences(b, p):
+    """does parameter local p influence the returned value: by data flow into _0, into a value written through a &mut
+    argument, or by deciding a branch?  -> (bool, how)"""
+    tainted = {p}
+    how = None
+    changed = True
+    al = b.aliases()
+    while changed:
+        changed = False
+        for bi in b.live:
+            if bi not in b.reachable():
+                continue
+            blk = b.blocks[bi]
+            for s in blk['stmts']:
+                used = set()
+                for o in _ops_of_rvalue(s['rv']):
+                    used |= set(_locals_of_op(o))
+                if used & tainted:
+                    tgt = s['pl']['l']
+                    root = b._resolve_place(s['pl'], al)[0]
+                    for t in (tgt, root):
+                        if t not in tainted:
+                            tainted.add(t)
+                            changed = True
+            t = blk['term']
+            if t['k'] == 'call':
+                used = set()
+                for a in t['args']:
+                    used |= set(_locals_of_op(a))
+                if used & tainted:
+                    new = {t['dest']['l']}
+                    for a in t['args']:
+                        if a['k'] in ('copy', 'move') and a['pl']['l'] in al:
+                            new.add(b._resolve_place(a['pl'], al)[0])
+                    for x in new:
+                        if x not in tainted:
+                            tainted.add(x)
+                            changed = True
+            elif t['k'] == 'switch':
+                if set(_locals_of_op(t['d'])) & tainted:
+                    return True, f'decides the branch at bb{bi}'
+    if 0 in tainted:
+        return True, 'flows into the return value'
+    return False, 'never reaches the return value or a branch condition'
+
+
+def paramuse(cx, trait_method_glob, pname, rule='PARAMUSE', floor=1):
+    """every implementation of the trait method depends on its parameter `pname`"""
+    n = 0
+    for b in sorted(user_bodies(cx.facts), key=lambda x: x.name):
+        if b.kind != 'AssocFn' or not b.impl_trait or not name_match(trait_method_glob, b.name):
+            continue
+        # parameter by position: find by name with or without the underscore
+        idx = None
+        for i in range(1, b.argc + 1):
+            nm = b.local_name(i) or ''
+            if nm.lstrip('_') == pname:
+                idx = i
+        n += 1
+        cx.analysed_fns.add(b.name)
+        if idx is None:
+            cx.ob(rule, f'{b.name}:{pname}', False, f'{b.name}: parameter `{pname}` is not bound at all (ignored)', where=b.file)
+            continue
+        ok, how = param_influences(b, idx)
+        cx.ob(rule, f'{b.name}:{pname}', ok, f'{b.name}: the result depends on `{pname}` ({how})', where=b.file, found=None if ok else how)
+    cx.floor(rule, f'{trait_method_glob}:{pname}', n, floor, f'implementations of {trait_method_glob}')
